@@ -255,7 +255,9 @@ class ConnectionPool(object):
             except KeyError:
                 return
             else:
-                yield from release_task
+                # Shielded: cancelling the client that happens to drain the
+                # check in must not cancel the check in itself.
+                yield from asyncio.shield(release_task)
 
     @asyncio.coroutine
     def session(self, host: str, port: int, use_ssl: bool=False):
